@@ -145,6 +145,8 @@ PROPS["C01"] = {
         J("ev-mixed-asan", "evfuzz", "asan", 0, 500, 20000),
         J("ev-ties-asan", "evfuzz", "asan", 1, 500, 20000),
         J("ev-large-asan", "evfuzz", "asan", 2, 16, 400, timeout=180),
+        J("sf-growth-events-with-waiters", "simfuzz", "rel", 10, 1500, 100000, timeout=60, chunk=2500),
+        J("sf-waits-events-with-waiters", "simfuzz", "rel", 0, 1500, 100000, timeout=60, chunk=2500),
     ],
     "rule": ("one case = a random history of schedule / cancel (pending, executed, cancelled, never-issued handles, also on an empty "
              "queue) / reschedule / reprioritise / pattern-cancel / clear, issued from the dispatcher and - about half - from inside running "
@@ -155,8 +157,10 @@ PROPS["C01"] = {
              "drain; distinct = FNV of (profile, population target) + per-case path; non-trivial = >=1 executed time tie and >=1 in-action mutation"),
     "headline": ["events_executed", "time_ties_executed", "time_priority_ties_resolved_by_handle", "mutations_from_inside_actions",
                  "op_schedule", "op_cancel_live", "op_cancel_dead", "op_cancel_on_empty_queue", "op_reschedule", "op_reprioritize",
-                 "op_pattern_cancel", "pattern_cancel_multi", "queue_clear_from_action", "queue_growths", "max_queue_capacity", "query_rounds"],
-    "min_observed": {"quick": {"time_priority_ties_resolved_by_handle": 5000, "mutations_from_inside_actions": 20000, "queue_growths": 500,
+                 "op_pattern_cancel", "pattern_cancel_multi", "queue_clear_from_action", "queue_growths", "max_queue_capacity", "query_rounds",
+                 "c01_event_queries", "c01_queries_on_event_with_waiters", "misc_event_reschedule", "misc_event_pattern_cancel"],
+    "key_prefixes": ["C01/", "hang", "abort:cmb_event", "asan:", "ubsan:", "crash:"],
+    "min_observed": {"quick": {"time_priority_ties_resolved_by_handle": 5000, "c01_queries_on_event_with_waiters": 30, "mutations_from_inside_actions": 20000, "queue_growths": 500,
                                "op_cancel_on_empty_queue": 100}},
     "assumptions": ["event times passed to schedule/reschedule are finite and >= the current time (documented precondition)",
                     "time/priority/reschedule/reprioritize queries are only made for handles that are pending (documented precondition)"],
